@@ -67,7 +67,27 @@ func C18(c *core.Ctx) {
 				pool = append(pool, item{m, enc})
 			}
 		}
+		var sized []int // packed: streams of 5000, 40 and 2500 bytes, in every order (storage kept from the longest one)
+		if mode == "packed" {
+			for _, n := range []int{5000, 40, 2500} {
+				m := gen.GenMsg(r, mode, false, false)
+				m.Stream = make([]byte, n)
+				r.Read(m.Stream)
+				enc, _ := marshal(m.ToGo(r).(codecMsg))
+				sized = append(sized, len(pool))
+				pool = append(pool, item{m, enc})
+			}
+		}
 		seqs := [][]int{}
+		for _, x := range sized {
+			for _, y := range sized {
+				for _, z := range sized {
+					if x != y && y != z {
+						seqs = append(seqs, []int{x, y, z})
+					}
+				}
+			}
+		}
 		for a := range pool {
 			for b := range pool {
 				seqs = append(seqs, []int{a, b})
